@@ -72,6 +72,7 @@ def check_node_rollout(
     T = len(rec["rewards"])
     E = res.events
     true_rewards = []
+    ref_total = []  # reward (+ time-out bootstrap) the interaction itself implies for each step, None where unknown
     want04 = "C04" in props
     want16 = "C16" in props
     for t in range(T):
@@ -133,7 +134,7 @@ def check_node_rollout(
 
         if pol is not None:
             # -- value and log-prob of exactly that observation and stored action
-            v_ref = pol.value(s)
+            v_ref = pol.value(s, k_st)
             if not close(rec["values"][t], v_ref):
                 if want04:
                     res.fail("C04", "value_of_obs", "value_mismatch", node=i, t=t, got=float(rec["values"][t]), expected=v_ref)
@@ -179,7 +180,8 @@ def check_node_rollout(
         for s2 in mdp.successors(s, e):
             term, trunc = mdp.flags(s2, ep)
             r = mdp.reward(s, e, s2)
-            boot = gamma * pol.value(s2) if (pol is not None and trunc and not term) else 0.0
+            # the bootstrap is V(successor observation) under the policy state carried OUT of this step (k + 1)
+            boot = gamma * pol.value(s2, k_st + 1) if (pol is not None and trunc and not term) else 0.0
             cands.append({"s2": s2, "term": term, "trunc": trunc, "done": term or trunc, "r": r, "boot": boot})
 
         def matches(c, with_reward=True):
@@ -203,7 +205,7 @@ def check_node_rollout(
             if c["term"]:
                 res.ok("C04", "no_bootstrap_on_term")
         else:
-            c = _diagnose(res, want04, mdp, pol, cands, s, a, e, oob, done, next_s, r_st, gamma, i, t, ep, s_ok)
+            c = _diagnose(res, want04, mdp, pol, cands, s, a, e, oob, done, next_s, r_st, gamma, i, t, ep, s_ok, k_st)
         # events (from the chosen candidate)
         if c["term"] and c["trunc"]:
             E["E.both"] += 1
@@ -222,6 +224,11 @@ def check_node_rollout(
             if node.ep_done and ep == 1:
                 E["E.done_consecutive"] += 1
         true_rewards.append(c["r"])
+        # reward the interaction implies: from the successors consistent with the recorded flags / next state (the recorded
+        # reward itself is not consulted), usable when they all agree
+        struct_ok = [g for g in cands if matches(g, with_reward=False)]
+        tot = sorted({round(g["r"] + g["boot"], 7) for g in struct_ok})
+        ref_total.append(tot[0] if len(tot) == 1 else None)
         if trace is not None:
             trace.ev("step", node=i, t=t, s=s, a=np.asarray(a).tolist(), r=r_st, done=done, s2=c["s2"], term=c["term"], trunc=c["trunc"])
 
@@ -277,7 +284,21 @@ def check_node_rollout(
 
     # ---- C03: GAE over the recorded stream of this node
     if "C03" in props and pol is not None:
-        check_gae(res, rec, pol.value(int(rec["env_s"])), gamma, lam, i)
+        check_gae(res, rec, pol.value(int(rec["env_s"]), int(rec["pol_k_after"])), gamma, lam, i)
+        # "nothing recorded after an episode end influences the estimates before it": the estimates must also equal GAE of the
+        # rewards the interaction itself implies (reference reconstruction), not only GAE of whatever numbers were recorded
+        if len(ref_total) == T and all(x is not None for x in ref_total):
+            adv2, _ = ref_gae(ref_total, rec["values"], rec["dones"], pol.value(int(rec["env_s"]), int(rec["pol_k_after"])), gamma, lam)
+            got = np.asarray(rec["advantages"], dtype=np.float64)
+            tol = 2e-5 * max(T, 4) * max(1.0, float(np.max(np.abs(adv2))))
+            if not np.all(np.abs(got - adv2) <= tol):
+                rec_r = np.asarray(rec["rewards"], dtype=np.float64)
+                bad_steps = [int(t) for t in np.where(np.abs(rec_r - np.asarray(ref_total)) > 1e-4 * np.maximum(1.0, np.abs(ref_total)))[0]]
+                at_done = bool(bad_steps) and all(bool(rec["dones"][t]) for t in bad_steps)
+                res.fail("C03", "cut_at_done", "estimates_before_an_episode_end_depend_on_what_follows_it" if at_done else "estimates_not_gae_of_the_interaction",
+                         node=i, steps=bad_steps[:6], got=got.tolist(), expected=adv2.tolist())
+            else:
+                res.ok("C03", "cut_at_done")
 
     # ---- C19: logger statistics on true rewards
     if "C19" in props:
@@ -286,7 +307,7 @@ def check_node_rollout(
     return true_rewards
 
 
-def _diagnose(res, want04, mdp, pol, cands, s, a, e, oob, done, next_s, r_st, gamma, i, t, ep, s_ok):
+def _diagnose(res, want04, mdp, pol, cands, s, a, e, oob, done, next_s, r_st, gamma, i, t, ep, s_ok, k_st=0):
     """Name the clause that fails when no legal successor explains the recorded step."""
     detail = dict(node=i, t=t, s=s, action=np.asarray(a).tolist(), stored_reward=r_st, stored_done=done, next_s=next_s, ep_step=ep,
                   candidates=[{k: (float(v) if isinstance(v, float) else v) for k, v in c.items()} for c in cands])
@@ -322,9 +343,12 @@ def _diagnose(res, want04, mdp, pol, cands, s, a, e, oob, done, next_s, r_st, ga
     if pol is None:
         res.fail("C04", "reward_of_clipped", "reward_mismatch", **detail)
         return c
-    v2 = gamma * pol.value(c["s2"])
+    v2 = gamma * pol.value(c["s2"], k_st + 1)
     for c in same_done:
-        v2 = gamma * pol.value(c["s2"])
+        v2 = gamma * pol.value(c["s2"], k_st + 1)
+        if c["boot"] != 0.0 and close(r_st, c["r"] + gamma * pol.value(c["s2"], 0), rel=2e-5) and abs(pol.value(c["s2"], 0) - pol.value(c["s2"], k_st + 1)) > 1e-4:
+            res.fail("C04", "bootstrap_trunc_only", "bootstrap_value_under_reset_policy_state", **detail)
+            return c
         if c["boot"] != 0.0 and close(r_st, c["r"], rel=2e-5):
             res.fail("C04", "bootstrap_trunc_only", "missing_bootstrap_on_timeout", **detail)
             return c
